@@ -6,6 +6,7 @@ import Mathlib.Analysis.Calculus.Deriv.Inv
 import Mathlib.Analysis.SpecialFunctions.Log.Deriv
 import Mathlib.Analysis.SpecialFunctions.Sqrt
 import Mathlib.Analysis.Calculus.Deriv.Abs
+import Mathlib.Data.Fin.VecNotation
 
 namespace GemVerif
 open scoped BigOperators Topology
@@ -184,4 +185,358 @@ theorem tvGrad_ova_interior {ε : ℝ} {P : Fin n → Fin K → ℝ} (hI : Inter
     RealLike.half_real, Bool.false_eq_true, if_false, clipMask_of_interior hI, mul_one,
     RealLike.nat_real]
 
+/-! ### TV one-vs-one -/
+
+
+theorem sum_rot (f : Fin K → Fin K → Fin n → ℝ) :
+    ∑ a, ∑ b, ∑ i, f a b i = ∑ i, ∑ a, ∑ b, f a b i := by
+  rw [Finset.sum_congr rfl fun a _ => Finset.sum_comm, Finset.sum_comm]
+
+theorem skew_pair (s : Fin K → Fin K → ℝ) (x y : Fin K → ℝ) :
+    ∑ a, ∑ b, s a b * (x a * y b - x b * y a) = ∑ k, (∑ a, x a * (s a k - s k a)) * y k := by
+  have h1 : ∑ a, ∑ b, s a b * (x a * y b) = ∑ k, ∑ a, x a * s a k * y k := by
+    rw [Finset.sum_comm]
+    exact Finset.sum_congr rfl fun k _ => Finset.sum_congr rfl fun a _ => by ring
+  have h2 : ∑ a, ∑ b, s a b * (x b * y a) = ∑ k, ∑ a, x a * s k a * y k :=
+    Finset.sum_congr rfl fun k _ => Finset.sum_congr rfl fun a _ => by ring
+  simp only [mul_sub, sub_mul, Finset.sum_sub_distrib, Finset.sum_mul, h1, h2]
+
+/-- `sign (π_a P_ib - π_b P_ia)` -/
+noncomputable def tvSign (P : Fin n → Fin K → ℝ) (i : Fin n) (a b : Fin K) : ℝ :=
+  RealLike.sign (Spec.pi P a * P i b - Spec.pi P b * P i a)
+
+theorem tvScore_ovo_interior {ε : ℝ} {P : Fin n → Fin K → ℝ} (hI : Interior ε P) :
+    tvScore ε true P
+      = 1 / 2 * ∑ a, ∑ b, (∑ i, |Spec.pi P a * P i b - Spec.pi P b * P i a|) / n := by
+  simp only [tvScore, clipP_of_interior hI, tab_apply, mean0_eq_pi, meanV_eq, sumFin_eq_sum,
+    RealLike.half_real, RealLike.abs_real, if_true]
+
+theorem tvGrad_ovo_interior {ε : ℝ} {P : Fin n → Fin K → ℝ} (hI : Interior ε P) (i : Fin n) (k : Fin K) :
+    tvGrad ε true P i k = 1 / 2 * ((∑ a, Spec.pi P a * (tvSign P i a k / n - tvSign P i k a / n))
+      + (∑ j, ∑ b, (tvSign P j k b / n - tvSign P j b k / n) * P j b) / n) := by
+  simp only [tvGrad, clipP_of_interior hI, tab_apply, tab2_apply, mean0_eq_pi, meanV_eq, sumFin_eq_sum,
+    RealLike.half_real, if_true, clipMask_of_interior hI, mul_one, RealLike.nat_real, tvSign]
+
+theorem tv_ovo_algebra (s : Fin n → Fin K → Fin K → ℝ) (P V : Fin n → Fin K → ℝ) (π w : Fin K → ℝ) (c : ℝ) :
+    1 / 2 * ∑ a, ∑ b, (∑ i, s i a b * (w a * P i b + π a * V i b - (w b * P i a + π b * V i a))) / c
+    = ∑ k, (∑ i, (1 / 2 / c * ∑ a, π a * (s i a k - s i k a)) * V i k
+        + (-(1 / 2 / c) * ∑ i, ∑ a, P i a * (s i a k - s i k a)) * w k) := by
+  have key : ∑ a, ∑ b, ∑ i, s i a b * (w a * P i b + π a * V i b - (w b * P i a + π b * V i a))
+      = ∑ i, (∑ k, (∑ a, π a * (s i a k - s i k a)) * V i k
+          - ∑ k, (∑ a, P i a * (s i a k - s i k a)) * w k) := by
+    rw [sum_rot]
+    refine Finset.sum_congr rfl fun i _ => ?_
+    rw [← skew_pair, ← skew_pair, ← Finset.sum_sub_distrib]
+    refine Finset.sum_congr rfl fun a _ => ?_
+    rw [← Finset.sum_sub_distrib]
+    refine Finset.sum_congr rfl fun b _ => ?_
+    ring
+  simp only [← Finset.sum_div]
+  rw [key, Finset.sum_sub_distrib, Finset.sum_add_distrib, Finset.sum_comm (γ := Fin K)]
+  have e3 : ∑ i, ∑ k, (1 / 2 / c * ∑ a, π a * (s i a k - s i k a)) * V i k
+      = 1 / 2 / c * ∑ i, ∑ k, (∑ a, π a * (s i a k - s i k a)) * V i k := by
+    rw [Finset.mul_sum]
+    refine Finset.sum_congr rfl fun i _ => ?_
+    rw [Finset.mul_sum]
+    exact Finset.sum_congr rfl fun k _ => by ring
+  have e4 : ∑ k, (-(1 / 2 / c) * ∑ i, ∑ a, P i a * (s i a k - s i k a)) * w k
+      = -(1 / 2 / c) * ∑ i, ∑ k, (∑ a, P i a * (s i a k - s i k a)) * w k := by
+    rw [Finset.sum_comm, Finset.mul_sum]
+    refine Finset.sum_congr rfl fun k _ => ?_
+    rw [Finset.mul_sum, Finset.mul_sum, Finset.sum_mul]
+    exact Finset.sum_congr rfl fun i _ => by ring
+  rw [e3, e4]
+  ring
+/-! ### MMD -/
+
+/-- `‖a - 1‖²` in the RKHS with Gram matrix `q`, in the expanded form the code computes:
+    `aᵀ q a + 1ᵀ q 1 - 2 · 1ᵀ q a` -/
+def quadForm (q : Fin n → Fin n → ℝ) (a : Fin n → ℝ) : ℝ :=
+  (∑ i, a i * ∑ j, q i j * a j) + (∑ i, ∑ j, q i j) - 2 * ∑ i, ∑ j, q i j * a j
+
+theorem quad_swap {q : Fin n → Fin n → ℝ} (hq : ∀ i j, q i j = q j i) (a b : Fin n → ℝ) :
+    ∑ i, a i * ∑ j, q i j * b j = ∑ i, b i * ∑ j, q i j * a j := by
+  simp only [Finset.mul_sum]
+  rw [Finset.sum_comm]
+  refine Finset.sum_congr rfl fun i _ => Finset.sum_congr rfl fun j _ => ?_
+  rw [hq j i]; ring
+
+theorem quadForm_eq {q : Fin n → Fin n → ℝ} (hq : ∀ i j, q i j = q j i) (a : Fin n → ℝ) :
+    quadForm q a = ∑ i, (a i - 1) * ∑ j, q i j * (a j - 1) := by
+  have h := quad_swap hq a (fun _ => 1)
+  simp only [mul_one, one_mul] at h
+  simp only [quadForm, mul_sub, sub_mul, Finset.sum_sub_distrib, mul_one, one_mul, h]
+  ring
+
+theorem quadForm_hasDerivAt {q : Fin n → Fin n → ℝ} (hq : ∀ i j, q i j = q j i)
+    {a : ℝ → Fin n → ℝ} {a' : Fin n → ℝ} {x : ℝ} (ha : ∀ i, HasDerivAt (fun t => a t i) (a' i) x) :
+    HasDerivAt (fun t => quadForm q (a t)) (2 * ∑ i, a' i * ∑ j, q i j * (a x j - 1)) x := by
+  have hg : ∀ i, HasDerivAt (fun t => ∑ j, q i j * a t j) (∑ j, q i j * a' j) x := fun i =>
+    HasDerivAt.fun_sum fun j _ => (ha j).const_mul _
+  unfold quadForm
+  refine (((HasDerivAt.fun_sum fun i _ => (ha i).fun_mul (hg i)).add_const _).fun_sub
+    ((HasDerivAt.fun_sum fun i _ => hg i).const_mul _)).congr_deriv ?_
+  have h1 := quad_swap hq (a x) a'
+  have h2 := quad_swap hq (fun _ => 1) a'
+  simp only [one_mul, mul_one] at h2
+  simp only [Finset.sum_add_distrib, h1, h2, mul_sub, Finset.sum_sub_distrib, mul_one]
+  ring
+
+theorem hasDerivAt_max_zero {f : ℝ → ℝ} {f' x : ℝ} (hf : HasDerivAt f f' x) (h : 0 < f x) :
+    HasDerivAt (fun y => max (f y) 0) f' x :=
+  hf.congr_of_eventuallyEq
+    ((hf.continuousAt.eventually (lt_mem_nhds h)).mono fun _ hy => max_eq_left (le_of_lt hy))
+
+theorem mmdAlpha_interior {ε : ℝ} {P : Fin n → Fin K → ℝ} (hI : Interior ε P) (i : Fin n) (k : Fin K) :
+    mmdAlpha ε P i k = P i k / Spec.pi P k := by
+  simp only [mmdAlpha, clipP_of_interior hI, tab_apply, mean0_eq_pi]
+
+theorem mmdGamma_interior {ε : ℝ} {P : Fin n → Fin K → ℝ} (hI : Interior ε P) (κ : Fin n → Fin n → ℝ)
+    (i : Fin n) (k : Fin K) :
+    mmdGamma ε P κ i k = ∑ j, κ i j / (n * n) * (P j k / Spec.pi P k) := by
+  simp only [mmdGamma, tab2_apply, mmdAlpha_interior hI, sumFin_eq_sum, RealLike.nat_real]
+
+theorem mmdDeltaOva_interior {ε : ℝ} {P : Fin n → Fin K → ℝ} (hI : Interior ε P) (κ : Fin n → Fin n → ℝ)
+    (k : Fin K) :
+    mmdDeltaOva ε P κ k
+      = Real.sqrt (max (quadForm (fun i j => κ i j / (n * n)) (fun i => P i k / Spec.pi P k)) 0) := by
+  simp only [mmdDeltaOva, tab2_apply, mmdAlpha_interior hI, mmdGamma_interior hI, sumFin_eq_sum,
+    RealLike.nat_real, RealLike.sqrt_real, RealLike.max_real, Nat.cast_ofNat, quadForm]
+
+theorem mmdScore_ova_interior {ε : ℝ} {P : Fin n → Fin K → ℝ} (hI : Interior ε P) (κ : Fin n → Fin n → ℝ) :
+    mmdScore ε false P κ = ∑ k, Spec.pi P k
+      * Real.sqrt (max (quadForm (fun i j => κ i j / (n * n)) (fun i => P i k / Spec.pi P k)) 0) := by
+  simp only [mmdScore, clipP_of_interior hI, tab_apply, mean0_eq_pi, sumFin_eq_sum,
+    mmdDeltaOva_interior hI, Bool.false_eq_true, if_false]
+
+theorem mmdGrad_ova_interior {ε : ℝ} {P : Fin n → Fin K → ℝ} (hI : Interior ε P) (κ : Fin n → Fin n → ℝ)
+    (i : Fin n) (k : Fin K) (hδ : mmdDeltaOva ε P κ k ≠ 0) :
+    mmdGrad ε false P κ i k = ((∑ j, κ i j / (n * n) * (P j k / Spec.pi P k - 1))
+      - (∑ l, ∑ j, κ l j / (n * n) * (P j k / Spec.pi P k - 1)) / n) / mmdDeltaOva ε P κ k := by
+  simp only [mmdGrad, tab_apply, tab2_apply, mmdAlpha_interior hI, sumFin_eq_sum, meanV_eq,
+    RealLike.nat_real, RealLike.beq_real, Bool.false_eq_true, if_false, clipMask_of_interior hI, mul_one,
+    hδ, decide_false, add_zero]
+/-! ### MMD one-vs-one -/
+
+/-- `omega[a,b] = α_aᵀ q α_b` -/
+def omOvo (q : Fin n → Fin n → ℝ) (al : Fin K → Fin n → ℝ) (a b : Fin K) : ℝ :=
+  ∑ i, al a i * ∑ j, q i j * al b j
+
+/-- the radicand of `delta[a,b]`, as the code computes it -/
+def radOvo (q : Fin n → Fin n → ℝ) (al : Fin K → Fin n → ℝ) (a b : Fin K) : ℝ :=
+  -2 * omOvo q al a b + omOvo q al b b + omOvo q al a a
+
+theorem radOvo_self (q : Fin n → Fin n → ℝ) (al : Fin K → Fin n → ℝ) (a : Fin K) :
+    radOvo q al a a = 0 := by
+  unfold radOvo; ring
+
+theorem omOvo_symm {q : Fin n → Fin n → ℝ} (hq : ∀ i j, q i j = q j i) (al : Fin K → Fin n → ℝ)
+    (a b : Fin K) : omOvo q al a b = omOvo q al b a := quad_swap hq _ _
+
+theorem radOvo_symm {q : Fin n → Fin n → ℝ} (hq : ∀ i j, q i j = q j i) (al : Fin K → Fin n → ℝ)
+    (a b : Fin K) : radOvo q al a b = radOvo q al b a := by
+  unfold radOvo; rw [omOvo_symm hq al a b]; ring
+
+theorem omOvo_hasDerivAt {q : Fin n → Fin n → ℝ} (hq : ∀ i j, q i j = q j i)
+    {al : ℝ → Fin K → Fin n → ℝ} {al' : Fin K → Fin n → ℝ} {x : ℝ}
+    (ha : ∀ k i, HasDerivAt (fun t => al t k i) (al' k i) x) (a b : Fin K) :
+    HasDerivAt (fun t => omOvo q (al t) a b)
+      (∑ i, (al' a i * ∑ j, q i j * al x b j) + ∑ i, (al' b i * ∑ j, q i j * al x a j)) x := by
+  have hg : ∀ k i, HasDerivAt (fun t => ∑ j, q i j * al t k j) (∑ j, q i j * al' k j) x := fun k i =>
+    HasDerivAt.fun_sum fun j _ => (ha k j).const_mul _
+  unfold omOvo
+  refine (HasDerivAt.fun_sum fun i _ => (ha a i).fun_mul (hg b i)).congr_deriv ?_
+  rw [Finset.sum_add_distrib, quad_swap hq (al x a) (al' b)]
+
+theorem radOvo_hasDerivAt {q : Fin n → Fin n → ℝ} (hq : ∀ i j, q i j = q j i)
+    {al : ℝ → Fin K → Fin n → ℝ} {al' : Fin K → Fin n → ℝ} {x : ℝ}
+    (ha : ∀ k i, HasDerivAt (fun t => al t k i) (al' k i) x) (a b : Fin K) :
+    HasDerivAt (fun t => radOvo q (al t) a b)
+      (2 * ∑ i, (al' a i - al' b i) * ((∑ j, q i j * al x a j) - ∑ j, q i j * al x b j)) x := by
+  unfold radOvo
+  refine ((((omOvo_hasDerivAt hq ha a b).const_mul (-2)).fun_add (omOvo_hasDerivAt hq ha b b)).fun_add
+    (omOvo_hasDerivAt hq ha a a)).congr_deriv ?_
+  simp only [sub_mul, mul_sub, Finset.sum_sub_distrib]
+  ring
+
+theorem mmdDeltaOvo_interior {ε : ℝ} {P : Fin n → Fin K → ℝ} (hI : Interior ε P) (κ : Fin n → Fin n → ℝ)
+    (a b : Fin K) :
+    mmdDeltaOvo ε P κ a b
+      = Real.sqrt (max (radOvo (fun i j => κ i j / (n * n)) (fun k i => P i k / Spec.pi P k) a b) 0) := by
+  simp only [mmdDeltaOvo, tab2_apply, mmdAlpha_interior hI, mmdGamma_interior hI, sumFin_eq_sum,
+    RealLike.nat_real, RealLike.sqrt_real, RealLike.max_real, Nat.cast_ofNat, radOvo, omOvo]
+
+theorem mmdDeltaOvo_self {ε : ℝ} {P : Fin n → Fin K → ℝ} (hI : Interior ε P) (κ : Fin n → Fin n → ℝ)
+    (a : Fin K) : mmdDeltaOvo ε P κ a a = 0 := by
+  rw [mmdDeltaOvo_interior hI, radOvo_self]; simp
+
+theorem mmdDeltaOvo_symm {ε : ℝ} {P : Fin n → Fin K → ℝ} (hI : Interior ε P) {κ : Fin n → Fin n → ℝ}
+    (hκ : ∀ i j, κ i j = κ j i) (a b : Fin K) : mmdDeltaOvo ε P κ a b = mmdDeltaOvo ε P κ b a := by
+  rw [mmdDeltaOvo_interior hI, mmdDeltaOvo_interior hI,
+    radOvo_symm (fun i j => by simp only [hκ i j])]
+
+theorem mmdScore_ovo_interior {ε : ℝ} {P : Fin n → Fin K → ℝ} (hI : Interior ε P) (κ : Fin n → Fin n → ℝ) :
+    mmdScore ε true P κ = ∑ b, (∑ a, Spec.pi P a
+      * Real.sqrt (max (radOvo (fun i j => κ i j / (n * n)) (fun k i => P i k / Spec.pi P k) a b) 0))
+      * Spec.pi P b := by
+  simp only [mmdScore, clipP_of_interior hI, tab_apply, tab2_apply, mean0_eq_pi, sumFin_eq_sum,
+    mmdDeltaOvo_interior hI, if_true]
+
+/-- `lambda[a,b]` of the gradient code when the off-diagonal distances are non-zero -/
+noncomputable def mmdLam (π : Fin K → ℝ) (δ : Fin K → Fin K → ℝ) (a b : Fin K) : ℝ :=
+  if a = b then 0 else π a * π b / δ a b
+
+theorem mmdGrad_ovo_interior {ε : ℝ} {P : Fin n → Fin K → ℝ} (hI : Interior ε P) (κ : Fin n → Fin n → ℝ)
+    (hδ : ∀ a b, a ≠ b → mmdDeltaOvo ε P κ a b ≠ 0) (i : Fin n) (k : Fin K) :
+    mmdGrad ε true P κ i k =
+      (((∑ j, κ i j / (n * n) * (P j k / Spec.pi P k)) * (∑ a, mmdLam (Spec.pi P) (mmdDeltaOvo ε P κ) a k)
+        - (∑ a, (∑ j, κ i j / (n * n) * (P j a / Spec.pi P a)) * mmdLam (Spec.pi P) (mmdDeltaOvo ε P κ) a k)
+        - (∑ l, P l k / Spec.pi P k * ∑ j, κ l j / (n * n) * (P j k / Spec.pi P k))
+            * (∑ a, mmdLam (Spec.pi P) (mmdDeltaOvo ε P κ) a k) / n
+        + (∑ l, P l k / Spec.pi P k * ∑ a, (∑ j, κ l j / (n * n) * (P j a / Spec.pi P a))
+            * mmdLam (Spec.pi P) (mmdDeltaOvo ε P κ) a k) / n) / Spec.pi P k
+        + (∑ a, Spec.pi P a * mmdDeltaOvo ε P κ a k) / n) * 2 := by
+  have hlam : ∀ a b, (if a = b then (0 : ℝ) else if decide (mmdDeltaOvo ε P κ a b = 0) = true then 0
+      else Spec.pi P a * Spec.pi P b / (mmdDeltaOvo ε P κ a b + 0))
+      = mmdLam (Spec.pi P) (mmdDeltaOvo ε P κ) a b := fun a b => by
+    unfold mmdLam
+    by_cases h : a = b
+    · simp [h]
+    · simp [h, hδ a b h]
+  simp only [mmdGrad, clipP_of_interior hI, tab_apply, tab2_apply, mean0_eq_pi, meanV_eq, sumFin_eq_sum,
+    mmdAlpha_interior hI, mmdGamma_interior hI, RealLike.nat_real, RealLike.beq_real, if_true,
+    clipMask_of_interior hI, mul_one, hlam, Nat.cast_ofNat]
+theorem mmdLam_symm (π : Fin K → ℝ) {δ : Fin K → Fin K → ℝ} (hδ : ∀ a b, δ a b = δ b a) (a b : Fin K) :
+    mmdLam π δ a b = mmdLam π δ b a := by
+  unfold mmdLam
+  by_cases h : a = b
+  · subst h; rfl
+  · rw [if_neg h, if_neg (Ne.symm h), hδ a b, mul_comm]
+
+theorem sym_pair {lam : Fin K → Fin K → ℝ} (hl : ∀ a b, lam a b = lam b a) (f g : Fin K → ℝ) :
+    ∑ a, ∑ b, lam a b * ((f a - f b) * (g a - g b))
+      = 2 * ∑ k, f k * (g k * ∑ a, lam a k - ∑ a, g a * lam a k) := by
+  have hS1 : ∑ a, ∑ b, lam a b * (f b * (g b - g a)) = ∑ a, ∑ b, lam a b * (f a * (g a - g b)) := by
+    rw [Finset.sum_comm]
+    exact Finset.sum_congr rfl fun a _ => Finset.sum_congr rfl fun b _ => by rw [hl b a]
+  have hR : ∀ k, f k * (g k * ∑ a, lam a k - ∑ a, g a * lam a k)
+      = ∑ b, lam k b * (f k * (g k - g b)) := fun k => by
+    rw [Finset.mul_sum, ← Finset.sum_sub_distrib, Finset.mul_sum]
+    exact Finset.sum_congr rfl fun b _ => by rw [hl k b]; ring
+  calc ∑ a, ∑ b, lam a b * ((f a - f b) * (g a - g b))
+      = ∑ a, ∑ b, (lam a b * (f a * (g a - g b)) + lam a b * (f b * (g b - g a))) :=
+        Finset.sum_congr rfl fun a _ => Finset.sum_congr rfl fun b _ => by ring
+    _ = ∑ a, ∑ b, lam a b * (f a * (g a - g b)) + ∑ a, ∑ b, lam a b * (f a * (g a - g b)) := by
+        simp only [Finset.sum_add_distrib]; rw [hS1]
+    _ = _ := by simp only [hR]; ring
+
+theorem mmd_ovo_algebra (π w : Fin K → ℝ) (hπ : ∀ k, π k ≠ 0) (δ : Fin K → Fin K → ℝ)
+    (hδs : ∀ a b, δ a b = δ b a) (hδ0 : ∀ a b, a ≠ b → δ a b ≠ 0) (P V g : Fin n → Fin K → ℝ) :
+    ∑ b, ((∑ a, (w a * δ a b + π a * (if a = b then 0 else
+        (2 * ∑ i, ((V i a * π a - P i a * w a) / π a ^ 2 - (V i b * π b - P i b * w b) / π b ^ 2)
+          * (g i a - g i b)) / (2 * δ a b)))) * π b + (∑ a, π a * δ a b) * w b)
+    = ∑ k, (∑ i, (2 * (g i k * (∑ a, mmdLam π δ a k) - ∑ a, g i a * mmdLam π δ a k) / π k) * V i k
+        + (2 * ((-(∑ l, P l k / π k * g l k) * (∑ a, mmdLam π δ a k)
+              + ∑ l, P l k / π k * ∑ a, g l a * mmdLam π δ a k) / π k
+            + ∑ a, π a * δ a k)) * w k) := by
+  have hl := mmdLam_symm π hδs
+  -- (i) the `E` part in terms of `lambda`
+  have hE : ∀ a b, π a * (if a = b then 0 else
+        (2 * ∑ i, ((V i a * π a - P i a * w a) / π a ^ 2 - (V i b * π b - P i b * w b) / π b ^ 2)
+          * (g i a - g i b)) / (2 * δ a b)) * π b
+      = ∑ i, mmdLam π δ a b * (((V i a * π a - P i a * w a) / π a ^ 2
+          - (V i b * π b - P i b * w b) / π b ^ 2) * (g i a - g i b)) := fun a b => by
+    unfold mmdLam
+    by_cases h : a = b
+    · simp [h]
+    · rw [if_neg h, if_neg h, ← Finset.mul_sum]
+      have := hδ0 a b h
+      field_simp
+      refine congrArg _ (Finset.sum_congr rfl fun i _ => ?_)
+      ring
+  -- (iii) symmetric pairing, per sample
+  have hT : ∑ b, ∑ a, ∑ i, mmdLam π δ a b * (((V i a * π a - P i a * w a) / π a ^ 2
+          - (V i b * π b - P i b * w b) / π b ^ 2) * (g i a - g i b))
+      = ∑ i, 2 * ∑ k, (V i k * π k - P i k * w k) / π k ^ 2
+          * (g i k * (∑ a, mmdLam π δ a k) - ∑ a, g i a * mmdLam π δ a k) := by
+    rw [Finset.sum_comm, sum_rot]
+    exact Finset.sum_congr rfl fun i _ => sym_pair hl _ _
+  -- (ii) the `delta` part
+  have hD : ∑ b, ∑ a, (w a * δ a b * π b + π a * δ a b * w b) = ∑ k, 2 * (∑ a, π a * δ a k) * w k := by
+    have h1 : ∑ b, ∑ a, w a * δ a b * π b = ∑ k, (∑ a, π a * δ a k) * w k := by
+      rw [Finset.sum_comm]
+      refine Finset.sum_congr rfl fun k _ => ?_
+      rw [Finset.sum_mul]
+      exact Finset.sum_congr rfl fun a _ => by rw [hδs k a]; ring
+    have h2 : ∑ b, ∑ a, π a * δ a b * w b = ∑ k, (∑ a, π a * δ a k) * w k :=
+      Finset.sum_congr rfl fun k _ => by rw [Finset.sum_mul]
+    simp only [Finset.sum_add_distrib, h1, h2]
+    rw [← Finset.sum_add_distrib]
+    exact Finset.sum_congr rfl fun k _ => by ring
+  calc _ = ∑ b, ∑ a, (w a * δ a b * π b + π a * δ a b * w b)
+        + ∑ b, ∑ a, ∑ i, mmdLam π δ a b * (((V i a * π a - P i a * w a) / π a ^ 2
+          - (V i b * π b - P i b * w b) / π b ^ 2) * (g i a - g i b)) := by
+        simp only [← hE, ← Finset.sum_add_distrib, Finset.sum_mul]
+        exact Finset.sum_congr rfl fun b _ => Finset.sum_congr rfl fun a _ => by ring
+    _ = _ := by
+        rw [hT, hD]
+        have hB : ∀ k, -(∑ l, P l k / π k * g l k) * (∑ a, mmdLam π δ a k)
+              + ∑ l, P l k / π k * ∑ a, g l a * mmdLam π δ a k
+            = -∑ l, P l k / π k * (g l k * (∑ a, mmdLam π δ a k) - ∑ a, g l a * mmdLam π δ a k) := fun k => by
+          rw [Finset.sum_congr rfl (fun l _ => mul_sub _ _ _), Finset.sum_sub_distrib, neg_mul,
+            Finset.sum_mul]
+          have : ∀ l, P l k / π k * g l k * (∑ a, mmdLam π δ a k)
+              = P l k / π k * (g l k * ∑ a, mmdLam π δ a k) := fun l => by ring
+          simp only [this]
+          ring
+        simp only [hB]
+        obtain ⟨X, hX⟩ : ∃ X : Fin n → Fin K → ℝ, ∀ i k,
+            X i k = g i k * (∑ a, mmdLam π δ a k) - ∑ a, g i a * mmdLam π δ a k := ⟨_, fun _ _ => rfl⟩
+        simp only [← hX]
+        rw [← Finset.mul_sum, Finset.sum_comm, Finset.mul_sum, ← Finset.sum_add_distrib]
+        refine Finset.sum_congr rfl fun k _ => ?_
+        have := hπ k
+        generalize (∑ a, π a * δ a k) = pd
+        generalize π k = p at *
+        generalize w k = u
+        have e : ∑ i, (V i k * p - P i k * u) / p ^ 2 * X i k
+            = (∑ i, X i k / p * V i k) - (∑ l, P l k / p * X l k) / p * u := by
+          rw [Finset.sum_div, Finset.sum_mul, ← Finset.sum_sub_distrib]
+          refine Finset.sum_congr rfl fun i _ => ?_
+          field_simp
+        have e1 : ∑ i, 2 * X i k / p * V i k = 2 * ∑ i, X i k / p * V i k := by
+          rw [Finset.mul_sum]
+          exact Finset.sum_congr rfl fun i _ => by ring
+        rw [e, e1]
+        ring
+/-! ### a concrete witness: the extra hypotheses of the TV / MMD theorems are satisfiable -/
+
+/-- a genuine point of the simplex (rows sum to 1) used to show hypotheses are satisfiable -/
+noncomputable def exP : Fin 2 → Fin 2 → ℝ := ![![7 / 10, 3 / 10], ![2 / 10, 8 / 10]]
+/-- identity affinity -/
+noncomputable def exK : Fin 2 → Fin 2 → ℝ := fun i j => if i = j then 1 else 0
+
+theorem exP_interior : Interior (1 / 10) exP := by
+  intro i k; fin_cases i <;> fin_cases k <;> simp [exP] <;> norm_num
+
+theorem exK_symm : ∀ i j, exK i j = exK j i := by
+  intro i j; simp [exK, eq_comm]
+
+theorem exP_tv_ova : ∀ i k, exP i k ≠ Spec.pi exP k := by
+  intro i k; fin_cases i <;> fin_cases k <;> simp [exP, Spec.pi, Fin.sum_univ_two] <;> norm_num
+
+theorem exP_tv_ovo : ∀ i a b, a ≠ b → Spec.pi exP a * exP i b ≠ Spec.pi exP b * exP i a := by
+  intro i a b; fin_cases i <;> fin_cases a <;> fin_cases b <;> simp [exP, Spec.pi, Fin.sum_univ_two] <;> norm_num
+
+theorem exP_mmd_ova : ∀ k, 0 < mmdDeltaOva (1 / 10) exP exK k := by
+  intro k
+  rw [mmdDeltaOva_interior exP_interior, Real.sqrt_pos, lt_max_iff]
+  left
+  fin_cases k <;> simp [quadForm, exP, exK, Spec.pi, Fin.sum_univ_two] <;> norm_num
+
+theorem exP_mmd_ovo : ∀ a b, a ≠ b → 0 < mmdDeltaOvo (1 / 10) exP exK a b := by
+  intro a b hab
+  rw [mmdDeltaOvo_interior exP_interior, Real.sqrt_pos, lt_max_iff]
+  left
+  fin_cases a <;> fin_cases b <;> simp [radOvo, omOvo, exP, exK, Spec.pi, Fin.sum_univ_two] at hab ⊢ <;> norm_num
 end GemVerif
